@@ -245,7 +245,6 @@ package jsonschema
 //@     invariant[C06] none: dynamicSchema == nil && (forall k int {st.stack[k]} :: 0 <= k && k <= $idx ==> !dynAnchorAt(rs, st.stack[k], schemaInfo.dynamicRefAnchor))
 //@     exit[C06] nomatch: $idx >= len(st.stack) ==> dynamicSchema == nil && (forall k int {st.stack[k]} :: 0 <= k && k < len(st.stack) ==> !dynAnchorAt(rs, st.stack[k], schemaInfo.dynamicRefAnchor))
 //@     exit[C06] match: $idx < len(st.stack) ==> 0 <= $idx && dynAnchorAt(rs, st.stack[$idx], schemaInfo.dynamicRefAnchor)
-//@     exit[C06] target: $idx < len(st.stack) ==> dynamicSchema == rs.resolvedInfos[rs.resolvedInfos[st.stack[$idx]].base].anchors[schemaInfo.dynamicRefAnchor].schema
 //@     exit[C06] outermost: $idx < len(st.stack) ==> (forall k int {st.stack[k]} :: 0 <= k && k < $idx ==> !dynAnchorAt(rs, st.stack[k], schemaInfo.dynamicRefAnchor))
 //@   loop "range instance.Len()#2"
 //@     invariant buckets: new(hashes) && (forall h int {has(hashes, h)} :: has(hashes, h) ==> newOrNil(hashes[h]) && allocated(hashes[h]) && (isnil(hashes[h]) || fresh(hashes[h])))
